@@ -406,7 +406,9 @@ class Ceremony:
             nw = psbtmap.get(pm["inputs"][k], 0x00) if k < len(pm["inputs"]) else []
             if f is not None and wu and not nw and i["vout"] < len(f["outs"]) and len(wu[0][1]) >= 8:
                 if int.from_bytes(wu[0][1][:8], "little") != f["outs"][i["vout"]]["amount"]:
-                    cause = "_witness_utxo_amount"
+                    # only for genuinely segwit inputs is a witness UTXO the legitimate (and unverifiable) record
+                    true_spk = f["outs"][i["vout"]]["spk"]
+                    cause = "_witness_utxo_amount" if (len(true_spk) == 34 and true_spk[:2] == b"\x00\x20") else "_witness_utxo_on_legacy_input"
         if known_all:
             if d["tx_fee_sats"] != true_in - out_sum:
                 fail("C11", "R1", "fee_misstated" + cause, f"summary says fee {d['tx_fee_sats']} sats; the inputs are worth {true_in} and the outputs {out_sum}, fee {true_in - out_sum}")
@@ -751,6 +753,32 @@ class Ceremony:
             spk2, _, _ = rw.spend_script(s.kind, s.m, evil)
             tx["outs"][ch_pos]["spk"] = spk2
             put_tx()
+        elif kind == "swap_change_spk_type":
+            # same hash bytes, another output template (p2wsh -> p2tr, p2sh -> p2wpkh / p2pkh): metadata untouched
+            if ch_pos is None:
+                return None
+            spk = tx["outs"][ch_pos]["spk"]
+            if len(spk) == 34 and spk[:2] == b"\x00\x20":
+                tx["outs"][ch_pos]["spk"] = tm.spk_p2tr(spk[2:])
+            elif len(spk) == 23 and spk[:2] == b"\xa9\x14":
+                h = spk[2:22]
+                tx["outs"][ch_pos]["spk"] = [tm.spk_p2wpkh(h), tm.spk_p2pkh(h), tm.spk_p2wsh(h + bytes(12)), tm.spk_p2tr(h + bytes(12)), b"\x6a" + tm.push(h)][a % 5]
+            else:
+                return None
+            put_tx()
+        elif kind == "p2sh_input_as_witness_utxo":
+            # a legacy p2sh multisig input documented by a (forged) witness UTXO record instead of its previous transaction
+            k_in = a % len(pm["inputs"])
+            im = pm["inputs"][k_in]
+            nw = psbtmap.get(im, 0x00)
+            if not nw or s.kind != "p2sh":
+                return None
+            true_spk = s.inputs[k_in]["spk"] if k_in < len(s.inputs) else None
+            if true_spk is None:
+                return None
+            spk2 = true_spk if a % 2 == 0 else tm.spk_p2sh(bytes([a % 256]) * 20)
+            lie = (s.inputs[k_in]["amount"] + 50000 + a).to_bytes(8, "little") + tm.compact_size(len(spk2)) + spk2
+            pm["inputs"][k_in] = [(b"\x01", lie)] + [kv for kv in im if kv[0][:1] != b"\x00"]
         elif kind == "flip_change_spk_byte":
             if ch_pos is None:
                 return None
@@ -1092,7 +1120,7 @@ def execute(plan, prop, trace):
 # ------------------------------------------------------------------------------------------------ generation
 
 TAMPER_KINDS = ["swap_change_spk", "flip_change_spk_byte", "foreign_script", "foreign_fingerprint", "wrong_path", "one_cosigner_keys", "one_cosigner_keys_spoofed_fps", "utxo_amount", "other_prev_tx", "changed_quorum", "second_change",
-                "redeem_for_other_input", "forge_change", "forge_change", "forge_change", "nonwitness_utxo_foreign_script", "both_utxo_records_disagree"]
+                "redeem_for_other_input", "forge_change", "forge_change", "forge_change", "nonwitness_utxo_foreign_script", "both_utxo_records_disagree", "swap_change_spk_type", "swap_change_spk_type", "p2sh_input_as_witness_utxo"]
 
 
 def gen_spend(ch, tier, kinds, max_n):
